@@ -17,6 +17,10 @@ pub mod source {
     impl ParsedSource {
         /// number of syntax diagnostics recorded for this text
         pub uninterp spec fn sp_n_errors(&self) -> nat;
+        /// a tree was built (lexing succeeded)
+        pub uninterp spec fn sp_have_parse(&self) -> bool;
+        /// oq3_syntax ParseOrErrors::have_parse: `self.green_maybe.is_some()`
+        #[verifier::external_body] pub fn have_parse(&self) -> (r: bool) ensures r == self.sp_have_parse() { unimplemented!() }
         /// oq3_syntax ParseOrErrors::errors: `&self.errors`
         #[verifier::external_body] pub fn errors(&self) -> (r: &[SynErr]) ensures r@.len() == self.sp_n_errors() { unimplemented!() }
         pub uninterp spec fn sp_tree(&self) -> synast::SourceFile;
@@ -67,6 +71,10 @@ pub mod source {
         #[verifier::external_body] pub fn include_error(&self) -> (r: Option<&IncludeError>)
             ensures (r is Some) == (self.sp_include_error() is Some), r is Some ==> *r->Some_0 == self.sp_include_error()->Some_0
         { unimplemented!() }
+    }
+    /// every `include` statement names a file by a (terminated) string literal
+    pub open spec fn includes_named(ss: Seq<synast::Stmt>) -> bool {
+        forall|i: int| 0 <= i < ss.len() && (#[trigger] ss[i]) is Include ==> ss[i]->Include_0.sp_file() is Some && ss[i]->Include_0.sp_file()->Some_0.sp_to_string() is Some
     }
     /// the path written in an `include` statement
     pub open spec fn include_path(i: synast::Include) -> Seq<char> { i.sp_file()->Some_0.sp_to_string()->Some_0@ }
